@@ -391,6 +391,6 @@ func runC08(c *core.Ctx) {
 	if workers > 14 {
 		workers = 14
 	}
-	c.RunSharded(want, core.ShardOpts{Mode: "c08", Workers: workers, Timeout: 30 * time.Minute})
+	c.RunSharded(want, core.ShardOpts{Mode: "c08", Workers: workers, Timeout: 30 * time.Minute, PerCaseTime: 20 * time.Second})
 	_ = rand.Int
 }
